@@ -1,5 +1,6 @@
 // f_slot.h — receiver object for the "slot" family (needs moc)
 #pragma once
+#include <QTcpSocket>
 #include <QObject>
 #include <qhttpengine/socket.h>
 #include "val.h"
@@ -22,6 +23,8 @@ public Q_SLOTS:
     void s4(QHttpEngine::Socket *s) { hit(4, s); }
     void s5(QHttpEngine::Socket *s) { hit(5, s); }
     void wrong(int) {}
+    void wrongsock(QTcpSocket *) {}            // a single pointer argument of another type whose name ends in Socket*
+    void twoargs(QHttpEngine::Socket *, int) {}
 private:
     Val *mLog;
 };
